@@ -6,6 +6,9 @@ import Hgxv.Proofs.C19P
 import Hgxv.Proofs.C19S
 import Hgxv.Proofs.C19L
 import Hgxv.Proofs.C19V
+import Hgxv.Proofs.C19F
+import Hgxv.Proofs.C19C
+import Hgxv.Proofs.C19G
 import Hgxv.Proofs.C19LinkC02
 /-! # C19 - filters keep exactly what the criteria say; validation p-values follow the definition
 
@@ -549,7 +552,9 @@ state of a container model (C01 `Hypergraph`, C02 `DirectedHypergraph`, C03 `Tem
 `MultiplexHypergraph`) as C19 content (`view0x s = ofSpec0x (C0x.abs s)` for a concrete store; weights are the models'
 `Int` quanta, metadata values `v` become `some v`).  Hypothesis `C0x.Inv s` (`Inv02 s = C02.Inv ∧ C02.Ord ∧ C02.Unw` for
 C02) is the class invariant C01 … C04 prove for every reachable object (`C19_link_reachable`); `WF`, `Lawful`, distinct
-keys are discharged from it. -/
+keys are discharged from it.  C02 with `keep_edges=True` has one more hypothesis, `NoNone (view02 s)`: no stored hyperedge
+metadata is the bare value None (`C02.metaNone`; C02's metadata may be any JSON value) - see `C19_link_C02_calls`,
+`C19_link_C02_noneMeta`. -/
 
 /-- criteria read the container's metadata: `metadata.get(attr)` on the image is the plain lookup -/
 theorem C19_link_mdGet (m : List (Nat × Nat)) (a : Nat) : mdGet (mdOf m) a = AL.get? m a := mdGet_mdOf m a
@@ -615,9 +620,13 @@ theorem C19_link_C01_calls (s : C01.Store) (h : C01.Inv s) (n : Node) (keep : Bo
       simp [hpf, e2 hpf]
 
 /-- **C02, call by call** (keys with sorted sides; the invariant includes "no node on both sides", see
-`C19_link_C02_overlap` for what happens without it). -/
+`C19_link_C02_overlap` for what happens without it).  For `keep_edges=True` the hypothesis `hnn` is added: the object
+satisfies the class invariant and no stored hyperedge metadata is the bare value None (`NoNone`) - then
+`remove_node(keep_edges=True)` would reset it to `{}` (the re-insertion passes it as the `metadata` ARGUMENT of `add_edge`,
+where None means "not given"), which the content model of C19 does not express (`C19_link_C02_noneMeta`); C19's filters
+never read metadata of re-inserted hyperedges, they carry it.  `keep_edges=False` needs no such hypothesis. -/
 theorem C19_link_C02_calls (s : C02.Store) (h : Inv02 s) (n : Node) (keep : Bool) (k : Key)
-    (hk : k.1.Pairwise (· ≤ ·) ∧ k.2.Pairwise (· ≤ ·)) :
+    (hk : k.1.Pairwise (· ≤ ·) ∧ k.2.Pairwise (· ≤ ·)) (hnn : keep = true → NoNone (ofSpec02 (C02.abs s))) :
     let a := C02.abs s
     (((C02.Spec.removeNode a n keep).2 = .ok ↔ (removeNode? opsD keep (ofSpec02 a) n).isSome) ∧
      ((C02.Spec.removeNode a n keep).2 = .ok →
@@ -629,7 +638,7 @@ theorem C19_link_C02_calls (s : C02.Store) (h : Inv02 s) (n : Node) (keep : Bool
      ((C02.Spec.removeEdge a (C02.RawEdge.ofKey k)).2 = .rej → (C02.Spec.removeEdge a (C02.RawEdge.ofKey k)).1 = a)) := by
   intro a
   have hd := dyn02_of_inv s h
-  obtain ⟨l1, l2⟩ := removeNode02 a hd n keep
+  obtain ⟨l1, l2⟩ := removeNode02 a hd n keep hnn
   obtain ⟨e1, e2⟩ := removeEdgeKey02 a k
   have hpres : (AL.get? (ofSpec02 a).nodes n).isSome = (AL.get? a.nodes n).isSome := by
     simp only [nodes02_get, Option.isSome_map]
@@ -658,6 +667,18 @@ theorem C19_link_C02_overlap :
     (C02.Spec.addEdge {} (C02.RawEdge.ofLists [1, 2] [1, 3]) none none).2 = .ok ∧
     (C02.Spec.removeNode a 1 false).2 = .rej ∧ (C02.Spec.removeNode a 1 true).2 = .rej ∧
     (removeNode? opsD true (ofSpec02 a) 1).isSome = true ∧ ¬ Dyn02 (ofSpec02 a) := overlap02_rejected
+
+/-- the corner outside the side condition `NoNone` of `keep_edges=True`: after `set_edge_metadata(((1,2),(3)), None)` the
+stored metadata is the bare value None; `remove_node(2, keep_edges=True)` on the object re-inserts `((1),(3))` with `{}`
+(as the code: `add_edge(.., metadata=None)`), the content model of C19 carries None over; with `keep_edges=False` the two
+agree on that state. -/
+theorem C19_link_C02_noneMeta :
+    let s := C02.run {} [.addEdge (.ofLists [1, 2] [3]) none none, .setEdgeMeta (.ofLists [1, 2] [3]) C02.metaNone]
+    (view02 s).edges = [(([1, 2], [3]), (C02.one, mdOf C02.metaNone))] ∧ ¬ NoNone (view02 s) ∧
+    (rmNode02 true s 2).2 = true ∧
+    (view02 (rmNode02 true s 2).1).edges = [(([1], [3]), (C02.one, []))] ∧
+    (removeNode opsD true (view02 s) 2).edges = [(([1], [3]), (C02.one, mdOf C02.metaNone))] ∧
+    (view02 (rmNode02 false s 2).1).edges = (removeNode opsD false (view02 s) 2).edges := noneMeta02_differs
 
 /-- **C03, call by call.** -/
 theorem C19_link_C03_calls (s : C03.Store) (h : C03.Inv s) (n : Node) (keep : Bool) (k : C03.Key) :
@@ -727,22 +748,26 @@ calls the filter makes on an object (`remove_node(n, keep_edges)` for the nodes 
 `remove_edge` for the hyperedges listed from the object left by the node phase; `rmNode0x` / `rmEdge0x` are the models'
 `apply … (.removeNode ..)` / `(.removeEdge ..)` with their verdicts).  For every object satisfying the class invariant:
 no call is rejected, the invariant holds afterwards, and the content of the resulting object is `filterHg` of the content
-of the input - so `C19_filter`, `C19_filter_keep`, `C19_filter_keep_weight`, `C19_filter_returns` speak about the
+of the input (for a `DirectedHypergraph` object with `keep_edges=True`: satisfying the class invariant and no stored
+hyperedge metadata is the bare value None - then `remove_node(keep_edges=True)` would reset it to `{}`, which the content
+model of C19 does not express; C19's filters never read metadata of the hyperedges they re-insert; the side condition
+`NoNone` holds again afterwards) - so `C19_filter`, `C19_filter_keep`, `C19_filter_keep_weight`, `C19_filter_returns` speak about the
 objects of the full models (`C19_link_words_*` below spell that out). -/
 theorem C19_link_filter (nc ec : Option Crit) (mode : Mode) (keep : Bool) :
     (∀ s, C01.Inv s →
       let r := filterVia view01 (rmNode01 keep) rmEdge01 s nc ec mode
       r.2 = true ∧ C01.Inv r.1 ∧ view01 r.1 = filterHg opsH (view01 s) nc ec mode keep) ∧
-    (∀ s, Inv02 s →
+    (∀ s, Inv02 s → (keep = true → NoNone (view02 s)) →
       let r := filterVia view02 (rmNode02 keep) rmEdge02 s nc ec mode
-      r.2 = true ∧ Inv02 r.1 ∧ view02 r.1 = filterHg opsD (view02 s) nc ec mode keep) ∧
+      r.2 = true ∧ Inv02 r.1 ∧ view02 r.1 = filterHg opsD (view02 s) nc ec mode keep ∧
+        (keep = true → NoNone (view02 r.1))) ∧
     (∀ s, C03.Inv s →
       let r := filterVia view03 (rmNode03 keep) rmEdge03 s nc ec mode
       r.2 = true ∧ C03.Inv r.1 ∧ view03 r.1 = filterHg opsT (view03 s) nc ec mode keep) ∧
     (∀ s, C04.Inv s →
       let r := filterVia view04 (rmNode04 keep) rmEdge04 s nc ec mode
       r.2 = true ∧ C04.Inv r.1 ∧ view04 r.1 = filterHg opsT (view04 s) nc ec mode keep) :=
-  ⟨fun s h => filter01 s h nc ec mode keep, fun s h => filter02 s h nc ec mode keep,
+  ⟨fun s h => filter01 s h nc ec mode keep, fun s h hnn => filter02 s h nc ec mode keep hnn,
    fun s h => filter03 s h nc ec mode keep, fun s h => filter04 s h nc ec mode keep⟩
 
 /-- **`keep_edges=False` in the property's words, on the objects.**  `c` = content of the object before, `c'` = content
@@ -827,6 +852,14 @@ example :
 example : (view02 (rmNode02 true (C02.run { weighted := true }
       [.addEdge (.ofLists [1, 2] [3]) (some 8) none, .addEdge (.ofLists [1] [2, 3]) (some 4) none]) 2).1).edges =
     [(([1], [3]), (12, []))] := by decide
+/-- the hypotheses of the C02 link with `keep_edges=True` are satisfiable: that object has no bare-None hyperedge metadata -/
+example : NoNone (view02 (C02.run { weighted := true }
+      [.addEdge (.ofLists [1, 2] [3]) (some 8) none, .addEdge (.ofLists [1] [2, 3]) (some 4) none])) := by
+  intro e he
+  have : e.2.2 = [] := by
+    revert e
+    decide
+  rw [this]; decide
 example : (view03 (rmNode03 true (C03.applyOp (C03.applyOp (C03.Store.new true)
       (.addEdge [1, 2] (.int 5) (some 8) none)).1 (.addEdge [2] (.int 5) (some 4) none)).1 2).1).edges =
     [(([1], [5]), (8, []))] := by decide
@@ -863,3 +896,425 @@ example : SameCrit? (some [(0, [some 1, none, some 1]), (3, [])]) (some [(0, [no
     have := (h none).2 (by simp)
     simp at this
   · simp [SameCrit?]
+
+
+/-! ## Extension round: the step-up rule as a multiple-testing procedure, survival-function identities, symmetry,
+and `get_svc` (statistically validated cores)
+
+`Proofs/C19F.lean`, `Proofs/C19C.lean`, model `Model/C19C.lean`.  `threshold` / `validated` are shared by `get_svh`
+(`sizeTable`) and `get_svc` (`coreTable`): the statements about them hold for both. -/
+
+/-- the FDR step-up procedure returns exactly the set given by the largest rank below its line: for `bonf > 0` let `k`
+be the number of validated p-values. Then the threshold is `k * bonf`; a p-value is validated iff it is below `k * bonf`;
+`k` is 0 or the `k`-th smallest p-value is below its line `k * bonf`; and every rank `j+1` whose p-value is below its
+line `(j+1) * bonf` is at most `k` (so `k` is the LARGEST such rank, 0 when there is none). -/
+theorem C19_fdr_rank (ps : List Rat) (bonf : Rat) (hb : 0 < bonf) :
+    let s := ps.mergeSort (fun a b => a ≤ b)
+    let k := (ps.filter (fun p => validated ps bonf p)).length
+    threshold ps bonf = (k : Rat) * bonf ∧ k ≤ s.length ∧
+    (∀ p, validated ps bonf p = true ↔ p < (k : Rat) * bonf) ∧
+    (∀ _ : 0 < k, ∃ h' : k - 1 < s.length, s[k - 1] < (k : Rat) * bonf) ∧
+    (∀ j (h : j < s.length), s[j] < ((j + 1 : Nat) : Rat) * bonf → j + 1 ≤ k) := by
+  intro s k
+  obtain ⟨h1, h2, h3, h4⟩ := threshold_rank ps bonf hb
+  refine ⟨h1, h2, fun p => ?_, h3, h4⟩
+  simp only [validated, decide_eq_true_eq]
+  rw [h1]
+
+/-- monotone in the level: with `0 ≤ bonf ≤ bonf'` the threshold does not fall and every validated p-value stays
+validated -/
+theorem C19_fdr_monotone (ps : List Rat) (bonf bonf' : Rat) (hb : 0 ≤ bonf) (hbb : bonf ≤ bonf') :
+    threshold ps bonf ≤ threshold ps bonf' ∧
+    ∀ p, validated ps bonf p = true → validated ps bonf' p = true := by
+  have h := threshold_mono ps bonf bonf' hb hbb
+  refine ⟨h, fun p hp => ?_⟩
+  simp only [validated, decide_eq_true_eq] at hp ⊢
+  exact lt_of_lt_of_le hp h
+
+/-- `get_svh` is monotone in `alpha`: the table of a size has the same rows for every `alpha`, and a hyperedge
+validated at level `alpha ≥ 0` is validated at every level `alpha' ≥ alpha` -/
+theorem C19_svh_alpha_monotone (sf : Nat → Nat → Rat → Rat) (alpha alpha' : Rat) (h0 : 0 ≤ alpha) (hle : alpha ≤ alpha')
+    (occ : List (List Nat)) (n : Nat) :
+    (sizeTable sf alpha occ n).rows.map (·.1) = (sizeTable sf alpha' occ n).rows.map (·.1) ∧
+    ∀ r, (r, true) ∈ (sizeTable sf alpha occ n).rows → (r, true) ∈ (sizeTable sf alpha' occ n).rows := by
+  have hC : (0 : ℚ) ≤ (choose (numNodes occ n) n : ℚ) := by exact_mod_cast Nat.zero_le _
+  have hb : 0 ≤ bonfOf alpha occ n := div_nonneg h0 hC
+  have hbb : bonfOf alpha occ n ≤ bonfOf alpha' occ n := div_le_div_of_nonneg_right hle hC
+  refine ⟨by simp [sizeTable, List.map_map, Function.comp_def], fun r hr => ?_⟩
+  simp only [sizeTable, List.mem_map, Prod.mk.injEq] at hr ⊢
+  obtain ⟨r0, hr0, rfl, hv⟩ := hr
+  exact ⟨r0, hr0, rfl, (C19_fdr_monotone _ _ _ hb hbb).2 _ hv⟩
+
+/-- Bonferroni ⊆ FDR ⊆ "below the last line": with `bonf ≥ 0`, a p-value of the table below the Bonferroni line `bonf`
+is validated by the step-up rule, and a validated p-value is below `m * bonf`, `m` the number of tests of the table -/
+theorem C19_bonferroni_sub_fdr (ps : List Rat) (bonf : Rat) (hb : 0 ≤ bonf) (p : Rat) (hp : p ∈ ps) :
+    (p < bonf → validated ps bonf p = true) ∧
+    (validated ps bonf p = true → p < (ps.length : Rat) * bonf) := by
+  simp only [validated, decide_eq_true_eq]
+  exact ⟨fun h => lt_of_lt_of_le h (threshold_ge_bonf ps bonf hb p hp h),
+    fun h => lt_of_lt_of_le h (threshold_le_all ps bonf hb)⟩
+
+/-- survival-function identities of the exact binomial tail `tail w N p = P(X ≥ w)`, `sfExact k = P(X > k)`:
+recurrence, nothing above `N`, `P(X ≥ N) = p^N`, `P(X ≥ 1) = 1 - (1-p)^N`, complement of the distribution function -/
+theorem C19_sf_identities (N : Nat) (p : ℚ) :
+    (∀ w, w ≤ N → tail w N p = pmf N p w + tail (w + 1) N p) ∧
+    (∀ w, N < w → tail w N p = 0) ∧
+    tail N N p = p ^ N ∧
+    tail 1 N p = 1 - (1 - p) ^ N ∧
+    (∀ k, k ≤ N → sfExact k N p = 1 - ∑ j ∈ Finset.range (k + 1), pmf N p j) ∧
+    (∀ j, pmf N p j = (N.choose j : ℚ) * p ^ j * (1 - p) ^ (N - j)) :=
+  ⟨fun w hw => tail_step w N p hw, fun w hw => tail_above w N p hw, tail_top N p, tail_one N p,
+    fun k hk => sf_compl k N p hk, pmf_eq N p⟩
+
+/-- the p-value of a row falls when the weight grows (same `N`, same degrees `0 < K_i ≤ N`), and a hyperedge seen
+once has the closed form `1 - (1 - prod K_i/N)^N` -/
+theorem C19_pvalue_weight (N : Nat) (ks : List Nat) (hk : ∀ k ∈ ks, 0 < k ∧ k ≤ N) :
+    (∀ w w', 1 ≤ w → w ≤ w' → pvalueWith sfExact w' N ks ≤ pvalueWith sfExact w N ks) ∧
+    pvalueWith sfExact 1 N ks = 1 - (1 - (ks.map (fun (k : Nat) => (k : ℚ) / (N : ℚ))).prod) ^ N := by
+  obtain ⟨hp0, hp1⟩ := ratios_prod_bounds ks N hk
+  constructor
+  · intro w w' hw hww
+    unfold pvalueWith sfExact
+    rw [show w - 1 + 1 = w by omega, show w' - 1 + 1 = w' by omega, prodRatio_eq]
+    exact tail_antitone w w' N _ (le_of_lt hp0) hp1 hww
+  · unfold pvalueWith sfExact
+    rw [prodRatio_eq]
+    exact tail_one N _
+
+/-- symmetry in the nodes: the parameters and the p-value of a hyperedge do not depend on the order in which its
+nodes are listed - the co-occurrence count is the same, the degrees are the same up to order, and the p-value of a
+tuple of degrees is invariant under every permutation (any `sf`) -/
+theorem C19_pvalue_symmetric (sf : Nat → Nat → Rat → Rat) (sub : List (List Nat)) (e e' : List Nat) (hp : e.Perm e')
+    (w N : Nat) :
+    n12 sub e = n12 sub e' ∧ (e.map (degK sub)).Perm (e'.map (degK sub)) ∧
+    (∀ ks ks' : List Nat, ks.Perm ks' → pvalueWith sf w N ks = pvalueWith sf w N ks') ∧
+    pvalueWith sf w N (e.map (degK sub)) = pvalueWith sf w N (e'.map (degK sub)) := by
+  have hpv : ∀ ks ks' : List Nat, ks.Perm ks' → pvalueWith sf w N ks = pvalueWith sf w N ks' := by
+    intro ks ks' h
+    unfold pvalueWith
+    rw [prodRatio_eq, prodRatio_eq, (h.map _).prod_eq]
+  refine ⟨?_, hp.map _, hpv, hpv _ _ (hp.map _)⟩
+  unfold n12
+  congr 2
+  funext b
+  rw [Bool.eq_iff_iff]
+  simp only [List.all_eq_true]
+  exact ⟨fun h i hi => h i (hp.mem_iff.mpr hi), fun h i hi => h i (hp.mem_iff.mp hi)⟩
+
+/-! ### `get_svc` -/
+
+/-- which orders `get_svc` reports: the call raises exactly when the hypergraph has no hyperedge occurrence or the range
+of orders is empty; otherwise one frame per order from `min(max_order, longest)` (`longest` when `max_order` is `None`
+or 0) DOWN to `min_order`, in that order -/
+theorem C19_svc_orders (sf : Nat → Nat → Rat → Rat) (alpha : Rat) (edges : List (List Nat × Nat)) (lo : Nat)
+    (hi : Option Nat) :
+    (svc sf alpha edges lo hi = none ↔
+      expand edges = [] ∨ ∃ m, maxLen (expand edges) = some m ∧ effMax hi m < lo) ∧
+    ∀ ts, svc sf alpha edges lo hi = some ts →
+      ∃ m, maxLen (expand edges) = some m ∧ (∃ b ∈ expand edges, b.length = m) ∧
+        (∀ b ∈ expand edges, b.length ≤ m) ∧ lo ≤ effMax hi m ∧
+        ts.map (·.order) = ordersDesc lo (effMax hi m) ∧ ts.length = effMax hi m + 1 - lo ∧
+        ∀ i (h : i < ts.length), ts[i].order = effMax hi m - i := by
+  have hempty : ∀ m, (ordersDesc lo (effMax hi m)).isEmpty = true ↔ effMax hi m < lo := by
+    intro m
+    rw [List.isEmpty_iff, ← List.length_eq_zero_iff, ordersDesc_length]; omega
+  have hsvc : svc sf alpha edges lo hi = (match maxLen (expand edges) with
+      | none => none
+      | some longest => if (ordersDesc lo (effMax hi longest)).isEmpty then none
+          else some (coreLoop sf alpha (expand edges) (ordersDesc lo (effMax hi longest)) [])) := rfl
+  constructor
+  · rw [hsvc]
+    cases hml : maxLen (expand edges) with
+    | none => exact ⟨fun _ => Or.inl ((maxLen_spec _).1.mp hml), fun _ => rfl⟩
+    | some m =>
+      have hne : expand edges ≠ [] := fun h => by rw [(maxLen_spec _).1.mpr h] at hml; cases hml
+      by_cases he : (ordersDesc lo (effMax hi m)).isEmpty = true
+      · simp only [he, if_true]
+        exact ⟨fun _ => Or.inr ⟨m, rfl, (hempty m).mp he⟩, fun _ => trivial⟩
+      · simp only [he, if_false, Bool.false_eq_true]
+        constructor
+        · intro h; cases h
+        · rintro (h | ⟨m', hm', hlt⟩)
+          · exact absurd h hne
+          · cases hm'; exact absurd ((hempty m).mpr hlt) he
+  · intro ts hts
+    unfold svc at hts
+    cases hml : maxLen (expand edges) with
+    | none => simp [hml] at hts
+    | some m =>
+      simp only [hml] at hts
+      by_cases he : (ordersDesc lo (effMax hi m)).isEmpty = true
+      · simp [he] at hts
+      · simp only [he, if_false, Bool.false_eq_true, Option.some.injEq] at hts
+        have hlo : lo ≤ effMax hi m := by
+          have := mt (hempty m).mpr he; omega
+        obtain ⟨hex, hall⟩ := (maxLen_spec _).2 m hml
+        have hord : ts.map (·.order) = ordersDesc lo (effMax hi m) := by rw [← hts, coreLoop_orders]
+        have hlen : ts.length = effMax hi m + 1 - lo := by
+          rw [← hts, coreLoop_length, ordersDesc_length]
+        refine ⟨m, rfl, hex, hall, hlo, hord, hlen, ?_⟩
+        intro i h
+        have h1 : (ts.map (·.order))[i]'(by simpa using h) = ts[i].order := by simp
+        rw [← h1]
+        simp only [hord]
+        exact ordersDesc_getElem lo (effMax hi m) i (by rw [ordersDesc_length]; omega)
+
+/-- one frame of `get_svc` (loop body on the occurrences `occ` with `sg` = the groups validated so far): the tested
+groups are listed once each and are exactly the `order`-sublists of the occurrences that are not a sublist of a group
+in `sg`; each row carries `w` = number of (occurrence, combination) pairs equal to the group, `N` = number of all
+occurrences, `K_i` = `deg_a[i]`, `p = sf(w - 1; N, prod K_i / N)`; the Bonferroni unit is `alpha / C(na, order)` with
+`na` the number of all nodes; the threshold is the step-up threshold of the frame's own p-values; a group is validated
+iff its p-value is strictly below it -/
+theorem C19_svc_rows (sf : Nat → Nat → Rat → Rat) (alpha : Rat) (occ sg : List (List Nat)) (k : Nat) :
+    let t := coreTable sf alpha occ sg k
+    (t.rows.map (·.1.edge)).Nodup ∧
+    (∀ g, g ∈ t.rows.map (·.1.edge) ↔ g.length = k ∧ (∃ b ∈ occ, g.Sublist b) ∧ ¬ ∃ v ∈ sg, g.Sublist v) ∧
+    (∀ r ∈ t.rows, r.1.w = countOf occ k r.1.edge ∧ r.1.N = occ.length ∧ r.1.ks = r.1.edge.map (degAll occ) ∧
+      r.1.p = sf (r.1.w - 1) r.1.N (prodRatio r.1.ks r.1.N)) ∧
+    t.order = k ∧ t.N = occ.length ∧ t.na = nodesAll occ ∧
+    t.bonf = alpha / ((nodesAll occ).choose k : ℚ) ∧
+    t.thr = threshold (t.rows.map (·.1.p)) t.bonf ∧
+    (∀ r ∈ t.rows, (r.2 = true ↔ r.1.p < t.thr)) ∧
+    (∀ g, g ∈ validGroups t ↔ ∃ r ∈ t.rows, r.1.edge = g ∧ r.1.p < t.thr) := by
+  intro t
+  have hflag : ∀ r ∈ t.rows, (r.2 = true ↔ r.1.p < t.thr) := by
+    intro r hr
+    simp only [t, coreTable, List.mem_map] at hr
+    obtain ⟨r0, _, rfl⟩ := hr
+    simp [t, coreTable, validated]
+  refine ⟨?_, ?_, ?_, rfl, rfl, rfl, by simp [t, coreTable, choose_eq], ?_, hflag, ?_⟩
+  · rw [coreTable_edges]; exact groupsOf_nodup occ sg k
+  · intro g; rw [coreTable_edges]; exact mem_groupsOf occ sg k g
+  · intro r hr
+    simp only [t, coreTable, coreRows, List.mem_map] at hr
+    obtain ⟨r0, ⟨g, _, rfl⟩, rfl⟩ := hr
+    exact ⟨rfl, rfl, rfl, rfl⟩
+  · simp only [t, coreTable, List.map_map]
+    congr 1
+  · intro g
+    simp only [validGroups, List.mem_map, List.mem_filter]
+    constructor
+    · rintro ⟨r, ⟨hr, hv⟩, rfl⟩; exact ⟨r, hr, rfl, (hflag r hr).mp hv⟩
+    · rintro ⟨r, hr, rfl, hlt⟩; exact ⟨r, ⟨hr, (hflag r hr).mpr hlt⟩, rfl⟩
+
+/-- the parameters in terms of the weighted hyperedge list (repetition-free tuples): the count of a group is the total
+weight of the hyperedges it is a sublist of (for strictly increasing tuples: that contain it), `deg_a[i]` the total
+weight of the hyperedges containing `i` (ALL sizes - unlike `get_svh`), `N` the total weight -/
+theorem C19_svc_params (edges : List (List Nat × Nat)) (h : ∀ f ∈ edges, f.1.Nodup) :
+    (∀ k g, g.length = k →
+      countOf (expand edges) k g = ((edges.filter (fun f => g.isSublist f.1)).map (·.2)).sum) ∧
+    (∀ i, degAll (expand edges) i = ((edges.filter (fun f => f.1.contains i)).map (·.2)).sum) ∧
+    (expand edges).length = (edges.map (·.2)).sum :=
+  ⟨fun k g hg => countOf_weight edges h k g hg, degAll_weight edges h, expand_length edges⟩
+
+/-- the loop: the frame at position `i` of the result is the loop body run with `sg` = all groups validated in the
+frames before it (the higher orders), on the same occurrences -/
+theorem C19_svc_loop (sf : Nat → Nat → Rat → Rat) (alpha : Rat) (edges : List (List Nat × Nat)) (lo : Nat)
+    (hi : Option Nat) (ts : List CoreTable) (hts : svc sf alpha edges lo hi = some ts) :
+    ∀ i (h : i < ts.length),
+      ts[i] = coreTable sf alpha (expand edges) ((ts.take i).flatMap validGroups) ts[i].order := by
+  intro i h
+  unfold svc at hts
+  cases hml : maxLen (expand edges) with
+  | none => simp [hml] at hts
+  | some m =>
+    simp only [hml] at hts
+    by_cases he : (ordersDesc lo (effMax hi m)).isEmpty = true
+    · simp [he] at hts
+    · simp only [he, if_false, Bool.false_eq_true, Option.some.injEq] at hts
+      subst hts
+      have hl : i < (ordersDesc lo (effMax hi m)).length := by rw [← coreLoop_length sf alpha (expand edges) _ []]; exact h
+      have h1 := coreLoop_getElem sf alpha (expand edges) (ordersDesc lo (effMax hi m)) [] i hl
+      have h2 : ((coreLoop sf alpha (expand edges) (ordersDesc lo (effMax hi m)) [])[i]).order =
+          (ordersDesc lo (effMax hi m))[i] := by rw [h1]; rfl
+      rw [h2]
+      simpa using h1
+
+/-- validated cores are maximal: a group tested at a lower order (a later frame) is never a sublist of a group validated
+at a higher order (an earlier frame) - in particular no validated group is contained in another validated group; and
+nothing else is left out: every `order`-sublist of an occurrence that is in no earlier validated group is a row -/
+theorem C19_svc_cores (sf : Nat → Nat → Rat → Rat) (alpha : Rat) (edges : List (List Nat × Nat)) (lo : Nat)
+    (hi : Option Nat) (ts : List CoreTable) (hts : svc sf alpha edges lo hi = some ts) :
+    ∀ j (hj : j < ts.length),
+      (∀ i (hij : i < j), ∀ v ∈ validGroups (ts[i]'(by omega)), ∀ r ∈ ts[j].rows, ¬ r.1.edge.Sublist v) ∧
+      (∀ g, g.length = ts[j].order → (∃ b ∈ expand edges, g.Sublist b) →
+        (∀ i (hij : i < j), ∀ v ∈ validGroups (ts[i]'(by omega)), ¬ g.Sublist v) →
+        g ∈ ts[j].rows.map (·.1.edge)) := by
+  intro j hj
+  have hloop := C19_svc_loop sf alpha edges lo hi ts hts j hj
+  have hrows := (C19_svc_rows sf alpha (expand edges) ((ts.take j).flatMap validGroups) ts[j].order).2.1
+  have hin : ∀ i (hij : i < j), ∀ v ∈ validGroups (ts[i]'(by omega)), v ∈ (ts.take j).flatMap validGroups := by
+    intro i hij v hv
+    refine List.mem_flatMap.mpr ⟨ts[i]'(by omega), ?_, hv⟩
+    rw [List.mem_take_iff_getElem]
+    exact ⟨i, by omega, rfl⟩
+  constructor
+  · intro i hij v hv r hr hsub
+    have hmem : r.1.edge ∈ ts[j].rows.map (·.1.edge) := List.mem_map.mpr ⟨r, hr, rfl⟩
+    rw [hloop] at hmem
+    exact ((hrows r.1.edge).mp hmem).2.2 ⟨v, hin i hij v hv, hsub⟩
+  · intro g hlen hocc hfree
+    rw [hloop]
+    refine (hrows g).mpr ⟨hlen, hocc, ?_⟩
+    rintro ⟨v, hv, hsub⟩
+    obtain ⟨t, ht, hvt⟩ := List.mem_flatMap.mp hv
+    obtain ⟨i, hi', rfl⟩ := List.mem_take_iff_getElem.mp ht
+    exact hfree i (by omega) v hvt hsub
+
+/-! #### non-vacuity of the extension round -/
+
+/-- sorted 1/1000, 1/300, 1/2 with bonf 1/100: two validated, threshold 2/100 = k * bonf, third rank not below 3/100 -/
+example : ([(1:Rat)/1000, 1/2, 1/300].filter (fun p => validated [1/1000, 1/2, 1/300] (1/100) p)).length = 2 ∧
+    threshold [(1:Rat)/1000, 1/2, 1/300] (1/100) = ((2 : Nat) : Rat) * (1/100) := by
+  norm_num [validated, threshold, stepUp, List.mergeSort, List.merge, List.filter]
+/-- a strict gain from a larger level: 1/50 is not validated with bonf 1/100 but with bonf 1/40 -/
+example : validated [(1:Rat)/50, 1/2] (1/100) (1/50) = false ∧ validated [(1:Rat)/50, 1/2] (1/40) (1/50) = true := by
+  norm_num [validated, threshold, stepUp, List.mergeSort, List.merge]
+/-- FDR is strictly larger than Bonferroni: 1/50 ≥ bonf = 1/60 is validated (rank 2 is below 2/60) -/
+example : ¬ ((1:Rat)/50 < 1/60) ∧ validated [(1:Rat)/40, 1/50] (1/60) (1/50) = true ∧
+    (1:Rat)/50 < (([(1:Rat)/40, 1/50].length : Nat) : Rat) * (1/60) := by
+  norm_num [validated, threshold, stepUp, List.mergeSort, List.merge]
+/-- identities on Bin(4, 3/4): P(X ≥ 4) = 81/256, P(X ≥ 1) = 255/256, sf(2) = P(X ≥ 3) = 189/256 -/
+example : tail 4 4 (3/4) = (3/4 : ℚ) ^ 4 ∧ tail 1 4 (3/4) = 1 - (1 - 3/4 : ℚ) ^ 4 ∧ sfExact 2 4 (3/4) = 189/256 := by
+  refine ⟨(C19_sf_identities 4 (3/4)).2.2.1, (C19_sf_identities 4 (3/4)).2.2.2.1, ?_⟩
+  norm_num [sfExact, tail, pmf, choose, fact, List.range, List.range.loop]
+/-- hypotheses of `C19_pvalue_weight` / `C19_pvalue_symmetric` on a concrete row -/
+example : (∀ k ∈ [3, 4], 0 < k ∧ k ≤ 4) ∧ [3, 4].Perm [4, 3] ∧ [1, 2].Perm [2, 1] := by
+  refine ⟨by decide, by decide, by decide⟩
+example : pvalueWith sfExact 2 4 [3, 4] ≠ pvalueWith sfExact 3 4 [3, 4] := by
+  norm_num [pvalueWith, sfExact, tail, pmf, prodRatio, choose, fact, List.range, List.range.loop]
+
+/-- hyperedges (1,2,3):5, (1,2):3, (2,3,4):1, (4,5):1, (5,6,7,8):2 (the session's worked example of `get_svc`) -/
+def C19.svcEdges : List (List Nat × Nat) := [([1, 2, 3], 5), ([1, 2], 3), ([2, 3, 4], 1), ([4, 5], 1), ([5, 6, 7, 8], 2)]
+
+example : (∀ f ∈ C19.svcEdges, f.1.Nodup) ∧ maxLen (expand C19.svcEdges) = some 4 ∧
+    effMax none 4 = 4 ∧ effMax (some 0) 4 = 4 ∧ effMax (some 3) 4 = 3 ∧ effMax (some 9) 4 = 4 ∧
+    ordersDesc 2 4 = [4, 3, 2] ∧ ordersDesc 3 2 = [] := by decide
+/-- counts and degrees: (1,2) is in 5 + 3 occurrences, node 2 in 9, N = 12; groups of order 2 with (5,6,7,8) validated -/
+example : countOf (expand C19.svcEdges) 2 [1, 2] = 8 ∧ degAll (expand C19.svcEdges) 2 = 9 ∧
+    (expand C19.svcEdges).length = 12 ∧ nodesAll (expand C19.svcEdges) = 8 ∧
+    groupsOf (expand C19.svcEdges) [[5, 6, 7, 8]] 2 = [[1, 2], [1, 3], [2, 3], [2, 4], [3, 4], [4, 5]] ∧
+    groupsOf (expand C19.svcEdges) [] 4 = [[5, 6, 7, 8]] ∧
+    combos 2 [5, 6, 7] = [[5, 6], [5, 7], [6, 7]] := by decide
+/-- the call raises on an empty hypergraph and on an empty range of orders, and returns three frames otherwise -/
+example : svc sfExact (1/100) [] 2 none = none ∧ svc sfExact (1/100) C19.svcEdges 5 none = none ∧
+    (svc sfExact (1/100) C19.svcEdges 2 none).isSome = true := by
+  refine ⟨rfl, ?_, ?_⟩
+  · have := (C19_svc_orders sfExact (1/100) C19.svcEdges 5 none).1.mpr (Or.inr ⟨4, by decide, by decide⟩)
+    exact this
+  · cases h : svc sfExact (1/100) C19.svcEdges 2 none with
+    | some ts => rfl
+    | none =>
+      rcases (C19_svc_orders sfExact (1/100) C19.svcEdges 2 none).1.mp h with h1 | ⟨m, hm, hlt⟩
+      · exact absurd h1 (by decide)
+      · have : m = 4 := by
+          have h4 : maxLen (expand C19.svcEdges) = some 4 := by decide
+          rw [h4] at hm; exact (Option.some.inj hm).symm
+        subst this
+        exact absurd hlt (by decide)
+
+/-- tie between the two routines: on strictly increasing tuples the count `w` of `get_svc` is the co-occurrence count
+`n12` of `get_svh`, taken over the occurrences of ALL sizes (sublist = subset for sorted tuples) -/
+theorem C19_svc_count_is_cooccurrence (occ : List (List Nat)) (hs : ∀ b ∈ occ, b.Pairwise (· < ·)) (g : List Nat)
+    (hg : g.Pairwise (· < ·)) :
+    countOf occ g.length g = n12 occ g ∧
+    (∀ b ∈ occ, (g.Sublist b ↔ ∀ i ∈ g, i ∈ b)) :=
+  ⟨countOf_eq_n12 occ hs g hg,
+    fun b hb => ⟨fun h i hi => h.subset hi, sublist_of_subset_sorted g b hg (hs b hb)⟩⟩
+
+/-- `get_svh`: the number of tests of a size never exceeds the number `C(n_a, n)` of possible hyperedges the
+Bonferroni unit divides by; hence (for `alpha ≥ 0`) a validated hyperedge has a p-value below `alpha` itself.
+Hypothesis: occurrences are strictly increasing tuples (`Hypergraph.add_edge` sorts, nodes distinct). -/
+theorem C19_svh_validated_below_alpha (sf : Nat → Nat → Rat → Rat) (alpha : Rat) (h0 : 0 ≤ alpha)
+    (occ : List (List Nat)) (hs : ∀ b ∈ occ, b.Pairwise (· < ·)) (n : Nat) :
+    (sizeTable sf alpha occ n).rows.length ≤ (numNodes occ n).choose n ∧
+    ∀ r ∈ (sizeTable sf alpha occ n).rows, r.2 = true → r.1.p < alpha := by
+  have hlen := svh_rows_le_choose sf occ hs n
+  refine ⟨by simpa [sizeTable] using hlen, ?_⟩
+  intro r hr hv
+  simp only [sizeTable, List.mem_map] at hr
+  obtain ⟨r0, hr0, rfl⟩ := hr
+  simp only [bonfOf, choose_eq] at hv
+  exact validated_lt_alpha _ alpha _ h0 (by simpa using hlen) r0.p (List.mem_map.mpr ⟨r0, hr0, rfl⟩) hv
+
+/-- the same for a frame of `get_svc`: at most `C(na, order)` groups are tested, a validated core has `p < alpha` -/
+theorem C19_svc_validated_below_alpha (sf : Nat → Nat → Rat → Rat) (alpha : Rat) (h0 : 0 ≤ alpha)
+    (occ sg : List (List Nat)) (hs : ∀ b ∈ occ, b.Pairwise (· < ·)) (k : Nat) :
+    (coreTable sf alpha occ sg k).rows.length ≤ (nodesAll occ).choose k ∧
+    ∀ r ∈ (coreTable sf alpha occ sg k).rows, r.2 = true → r.1.p < alpha := by
+  have hlen := svc_rows_le_choose sf occ sg hs k
+  refine ⟨by simpa [coreTable] using hlen, ?_⟩
+  intro r hr hv
+  simp only [coreTable, List.mem_map] at hr
+  obtain ⟨r0, hr0, rfl⟩ := hr
+  simp only [choose_eq] at hv
+  exact validated_lt_alpha _ alpha _ h0 (by simpa using hlen) r0.p (List.mem_map.mpr ⟨r0, hr0, rfl⟩) hv
+
+/-- the validated cores form an antichain: two groups validated in different frames of one `get_svc` result are never
+contained one in the other (the later one has the smaller order and was tested only because it is in no earlier core) -/
+theorem C19_svc_antichain (sf : Nat → Nat → Rat → Rat) (alpha : Rat) (edges : List (List Nat × Nat)) (lo : Nat)
+    (hi : Option Nat) (ts : List CoreTable) (hts : svc sf alpha edges lo hi = some ts) :
+    ∀ i j (hij : i < j) (hj : j < ts.length), ∀ v ∈ validGroups (ts[i]'(by omega)), ∀ u ∈ validGroups ts[j],
+      v.length = ts[i].order ∧ u.length = ts[j].order ∧ u.length < v.length ∧ ¬ u.Sublist v ∧ ¬ v.Sublist u := by
+  intro i j hij hj v hv u hu
+  obtain ⟨m, _, _, _, _, _, hlen, hord⟩ := (C19_svc_orders sf alpha edges lo hi).2 ts hts
+  have hlenOf : ∀ a (ha : a < ts.length), ∀ g ∈ validGroups ts[a], g.length = ts[a].order := by
+    intro a ha g hg
+    have hloop := C19_svc_loop sf alpha edges lo hi ts hts a ha
+    have hrows := (C19_svc_rows sf alpha (expand edges) ((ts.take a).flatMap validGroups) ts[a].order).2.1
+    have := validGroups_sub ts[a] g hg
+    rw [hloop] at this
+    exact ((hrows g).mp this).1
+  have hv' := hlenOf i (by omega) v hv
+  have hu' := hlenOf j hj u hu
+  have hlt : u.length < v.length := by
+    rw [hv', hu', hord i (by omega), hord j hj]; omega
+  refine ⟨hv', hu', hlt, ?_, fun h => by have := h.length_le; omega⟩
+  obtain ⟨r, hr, rfl⟩ := List.mem_map.mp (validGroups_sub ts[j] u hu)
+  exact (C19_svc_cores sf alpha edges lo hi ts hts j hj).1 i hij v hv r hr
+
+/-- the worked example: (1,2) is a sublist of 5 + 3 occurrences = its co-occurrence count over all sizes -/
+example : (∀ b ∈ expand C19.svcEdges, b.Pairwise (· < ·)) ∧ n12 (expand C19.svcEdges) [1, 2] = 8 ∧
+    countOf (expand C19.svcEdges) 2 [1, 2] = 8 := by decide
+/-- order 3 of the example: 6 tested groups, at most C(8, 3) = 56 possible -/
+example : (groupsOf (expand C19.svcEdges) [] 3).length = 6 ∧ (nodesAll (expand C19.svcEdges)).choose 3 = 56 := by decide
+
+/-- the size of the validated set IS the step-up rank, in both routines: with a positive Bonferroni unit the number of
+validated rows of a `get_svh` table / a `get_svc` frame times the unit equals the table's threshold -/
+theorem C19_validated_count (sf : Nat → Nat → Rat → Rat) (alpha : Rat) (occ sg : List (List Nat)) (n : Nat) :
+    (0 < (sizeTable sf alpha occ n).bonf →
+      (((sizeTable sf alpha occ n).rows.filter (·.2)).length : Rat) * (sizeTable sf alpha occ n).bonf =
+        (sizeTable sf alpha occ n).thr) ∧
+    (0 < (coreTable sf alpha occ sg n).bonf →
+      (((coreTable sf alpha occ sg n).rows.filter (·.2)).length : Rat) * (coreTable sf alpha occ sg n).bonf =
+        (coreTable sf alpha occ sg n).thr) := by
+  constructor
+  · intro hb
+    simp only [sizeTable] at hb ⊢
+    rw [flagged_count _ _ _ rfl]
+    exact ((C19_fdr_rank _ _ hb).1).symm
+  · intro hb
+    simp only [coreTable] at hb ⊢
+    rw [flagged_count _ _ _ rfl]
+    exact ((C19_fdr_rank _ _ hb).1).symm
+
+/-- reflection of the binomial tail (successes with probability `p` are failures with probability `1 - p`):
+`P(X ≥ w | N, p) = 1 - P(X ≥ N + 1 - w | N, 1 - p)` for `w ≤ N + 1` - the identity by which the harness's 150-digit
+oracle sums the short side of the law -/
+theorem C19_sf_reflection (w N : Nat) (p : ℚ) (hw : w ≤ N + 1) : tail w N p = 1 - tail (N + 1 - w) N (1 - p) :=
+  tail_reflect w N p hw
+
+example : tail 3 4 (3/4) = 1 - tail 2 4 (1/4) ∧ tail 3 4 (3/4) = 189/256 := by
+  refine ⟨C19_sf_reflection 3 4 (3/4) (by decide) |>.trans (by norm_num), ?_⟩
+  norm_num [tail, pmf, choose, fact, List.range, List.range.loop]
+
+/-- the hypothesis of `C19_validated_count` holds for the example tables: `bonf = (1/100) / C(3, 2)` resp. `/ C(8, 2)` -/
+example : 0 < (sizeTable sfExact (1/100) (expand C19.exampleEdges) 2).bonf ∧
+    0 < (coreTable sfExact (1/100) (expand C19.svcEdges) [[5, 6, 7, 8]] 2).bonf := by
+  constructor
+  · rw [(C19_svh_flags sfExact (1/100) (expand C19.exampleEdges) 2).1]
+    have : numNodes (expand C19.exampleEdges) 2 = 3 := by decide
+    rw [this]; norm_num [Nat.choose]
+  · rw [(C19_svc_rows sfExact (1/100) (expand C19.svcEdges) [[5, 6, 7, 8]] 2).2.2.2.2.2.2.1]
+    have : nodesAll (expand C19.svcEdges) = 8 := by decide
+    rw [this]; norm_num [Nat.choose]
